@@ -128,6 +128,25 @@ func C06(ctx *core.Ctx) {
 	ctx.Rule("C06.R2", "bounded lock hold: every critical section of the registry mutex contains no blocking op, no call that can reach one in package frugal, and only whitelisted pure external calls", 3)
 	ctx.Rule("C06.R3", "every result channel handed to fRegistry.Register has constant capacity ≥ 1", 2)
 	ctx.Rule("C06.R4", "lock balance: every function acquiring the registry mutex releases it on every exit", 3)
+	ctx.Rule("C06.R5", "the reader keeps reading: a frame the registry cannot deliver is discarded without an error wherever a reader loop ends on an error of Execute", 2)
+	{
+		regImpl := map[*ssa.Function]string{}
+		for _, m := range []string{"Register", "Unregister", "Execute", "dispatch"} {
+			for _, f := range r.Impl("fRegistry", m) {
+				regImpl[f] = m
+			}
+		}
+		n := 0
+		for f, role := range regImpl {
+			if role == "dispatch" {
+				n++
+				undeliverableNotError(ctx, r, "C06.R5", f, regImpl)
+			}
+		}
+		if n == 0 {
+			ctx.Unresolved("C06.R5", "fRegistry.dispatch", "no delivery function found")
+		}
+	}
 	lockBalance(ctx, r, "C06.R4", "fRegistryImpl")
 	ctx.Assume("(*nats.Conn).Publish/PublishRequest, logrus logging and thrift constructors do not wait for the peer")
 
